@@ -3,6 +3,7 @@
    C18: after a successful load the container has exactly N elements (no stale element survives, nothing loaded is lost), item number w
    was loaded into slot number w (arbitrary witness w), each item was requested exactly once. */
 #include "models/prelude.h"
+static _Bool __verif_exc_oob;   /* bitset::set/test with an index >= size() throws std::out_of_range: recorded */
 typedef struct { int _opaque; } std_variant_vstr_c8_vstr_wc_vstr_c16_vstr_c32;
 typedef struct { int _opaque; } std_map_vstr_c8_vvec_vstr_c8_std_less_vstr_c8;
 typedef struct { size_t size; unsigned resizes; } vvec_i32;
@@ -31,6 +32,10 @@ static inline std_Bit_reference* std_Bit_reference_op_assign__b(std_Bit_referenc
 static inline _Bool std_Bit_reference_conv_b___k(const std_Bit_reference* r) { return r->idx == g_bw ? g_elem_w : nondet_bool(); }
 static inline void vvec_b_push_back__b(vvec_b* v, _Bool x) { if (v->size == g_bw) g_elem_w = x; v->size++; }
 static inline void vvec_b_resize__u64_b(vvec_b* v, unsigned long n, _Bool x) { if (n > v->size && g_bw >= v->size && g_bw < n) g_elem_w = x; v->size = n; }
+/* std::bitset<8> */
+typedef struct { _Bool b[8]; } std_bitset_8;
+static inline std_bitset_8* std_bitset_8_set__u64_b(std_bitset_8* s, unsigned long i, _Bool v) { if (i >= 8) { __verif_exc_oob = 1; return s; } s->b[i] = v; return s; }
+static inline _Bool std_bitset_8_test__u64_k(const std_bitset_8* s, unsigned long i) { if (i >= 8) { __verif_exc_oob = 1; return 0; } return s->b[i]; }
 /* std::optional<int> / std::unique_ptr<int> models */
 typedef struct { char __e; } std_nullopt_t; static const std_nullopt_t m_std_nullopt = {0};
 typedef struct { _Bool has; int v; } vopt_i32;
@@ -113,9 +118,15 @@ void h_load_vector_bool(void) { struct AbsLoadArrayScope scope; vvec_b vec; g_bv
   VERIF_ASSERT("C18", __verif_exc != 0 || (vec.size == g_b_n && g_b_loaded == g_b_n), "after a successful load the vector<bool> has exactly as many elements as the archive array, whatever its prior size and the size estimate");
   VERIF_ASSERT("C18,C05", __verif_exc != 0 || g_bw >= g_b_n || (g_w_item_loaded ? g_elem_w == g_item_w : g_elem_w == (g_bw < g_size_after_resize ? g_elem_w_after_resize : 0)), "element w holds item w of the archive if that item was loaded; an item that was NOT loaded (null / skipped) leaves its element at its previous value (false for a new element), not at a neighbour's value");
   VERIF_CANARY(); }
+void h_load_bitset(void) { struct AbsLoadArrayScope scope; std_bitset_8 bs, bs0; for (int i = 0; i < 8; i++) { bs.b[i] = nondet_bool(); bs0.b[i] = bs.b[i]; }
+  g_vb_mode = 1; g_b_n = 8; g_b_loaded = 0; g_bw = nondet_size_t(); __CPROVER_assume(g_bw < 8); g_w_item_loaded = 0; __verif_exc = 0; __verif_exc_oob = 0; vvec_b dummy; dummy.size = 8; g_bvec = &dummy;
+  verif_inst_load_bitset__rAbsLoadArrayScope_rstd_bitset_8(&scope, &bs);
+  VERIF_ASSERT("C18,C05", __verif_exc != 0 || (!__verif_exc_oob && g_b_loaded == 8 && (g_w_item_loaded ? bs.b[g_bw] == g_item_w : bs.b[g_bw] == bs0.b[g_bw])), "bit w holds item w of the archive if that item was loaded; a bit whose item was NOT loaded (null / skipped) keeps its previous value, not a neighbour's");
+  VERIF_CANARY(); }
 /*@jobs
 job entry=h_load_vector props=C18,C02 mode=direct loops=1 unwind=2
 job entry=h_load_vector_bool props=C18,C05,C02 mode=direct loops=1 unwind=2
+job entry=h_load_bitset props=C18,C05,C02 mode=direct unwind=10
 job entry=h_load_optional props=C18,C20,C02 mode=direct unwind=2
 job entry=h_load_unique props=C18,C20,C02 mode=direct unwind=2
 @*/
